@@ -6,12 +6,12 @@ from vf.irparse import IntT, FpT
 
 ID = 'C29'
 LEVEL = 'other'
-TUS = ['src/engine/engine_passive.c', 'src/engine/engine_core_util.c', 'src/engine/engine_util_blas.c', 'src/engine/engine_util_misc.c']
+TUS = ['src/engine/engine_passive.c', 'src/engine/engine_core_util.c', 'src/engine/engine_util_blas.c', 'src/engine/engine_util_misc.c', 'src/engine/engine_support.c']
 EXPLANATION = ('llsym (real-algebraic) runs the real static mj_springdamper on models with slide/hinge joints: qfrc_spring[dof] = -x * (k + sum_i poly_i x^(i+1)) with x = qpos - qpos_spring (restoring, '
                'zero at the reference, equal to -dV/dx of the polynomial potential x^2 k/2 + ...), qfrc_damper[dof] = -v * (b + sum_i poly_i |v|^(i+1)) with non-positive power v*f for non-negative '
                'coefficients and zero at v = 0; dofs without spring/damper and all other cells are untouched; mjDSBL_SPRING / mjDSBL_DAMPER switch the respective term off.')
 BOUNDS = {'quick': {'nv': '<= 2 slide/hinge joints', 'polynomial order': 'mjNPOLY as compiled'}, 'thorough': {'nv': '<= 3'}}
-OUTSIDE = 'ball/free joint springs (quaternion difference), tendon springs, flex elasticity, gravity compensation, fluid forces, actuator-inherited damping (jnt_actuatorid = -1).'
+OUTSIDE = 'ball/free joint springs (quaternion difference), flex elasticity, fluid forces, actuator-inherited damping (jnt_actuatorid / tendon_actuatorid = -1), sleeping bodies; gravity compensation is covered on 3-body models (chain and fork) with one dof per body.'
 ASSUMPTIONS = ['real-number semantics', 'sleep disabled, nflex = ntendon = 0', 'qfrc_spring / qfrc_damper zeroed by mj_passive before the call']
 BUDGET = {'quick': 400, 'thorough': 1500}
 _c = {}
@@ -33,7 +33,7 @@ def lay():
     return _c['l']
 
 
-def prepare(tier): mod(); so(); lay()
+def prepare(tier): mod(); so(); lay(); so_gc()
 
 
 def unit_spring(tier, nv, flags):
@@ -88,8 +88,125 @@ def unit_spring(tier, nv, flags):
     return ck
 
 
+def unit_tendon(tier, nt, flags):
+    """tendon spring (with deadband lengthspring) and damper, mapped to joint space through the sparse tendon Jacobian"""
+    ck = Checker('tendon_nt%d_f%d' % (nt, flags), tier, timeout_s=120, semantics='real')
+    L = lay(); K = build.enum_values('mjJNT_'); KD = build.enum_values('mjDSBL_')
+    import re
+    npoly = int(re.search(r'#define mjNPOLY\s+(\d+)', open(build.REPO + '/include/mujoco/mjmodel.h').read() + open(build.REPO + '/include/mujoco/mjtype.h').read()).group(1))
+    w = W.World('real')
+    nv = 2; nb = nv + 1
+    # tendon 0 touches dofs 0 and 1, tendon 1 (if present) touches dof 1 only
+    rowadr = [0, 2][:nt]; rownnz = [2, 1][:nt]; colind = [0, 1, 1][:sum(rownnz)]; nJ = len(colind)
+    M, _ = W.full_struct(w, L, 'mjModel_', 'MJMODEL_POINTERS', {'nq': nv, 'nv': nv, 'njnt': nv, 'nbody': nb, 'ntree': nv, 'ntendon': nt, 'nJten': nJ}, 'm', default_size=0,
+                         symbolic=('tendon_stiffness', 'tendon_stiffnesspoly', 'tendon_damping', 'tendon_dampingpoly', 'tendon_lengthspring'),
+                         values={'jnt_type': [K['mjJNT_SLIDE']] * nv, 'jnt_qposadr': list(range(nv)), 'jnt_dofadr': list(range(nv)), 'body_jntadr': [-1] + list(range(nv)), 'body_jntnum': [0] + [1] * nv,
+                                 'jnt_actuatorid': [-1] * nv, 'dof_jntid': list(range(nv)), 'ten_J_rowadr': rowadr, 'ten_J_rownnz': rownnz, 'ten_J_colind': colind, 'tendon_actuatorid': [-1] * nt})
+    D, _ = W.full_struct(w, L, 'mjData_', 'MJDATA_POINTERS', {'nq': nv, 'nv': nv, 'nbody': nb, 'ntendon': nt, 'nJten': nJ}, 'd', default_size=0, symbolic=('ten_length', 'ten_velocity', 'ten_J'))
+    dis = (KD['mjDSBL_SPRING'] if flags & 1 else 0) | (KD['mjDSBL_DAMPER'] if flags & 2 else 0)
+    M.set('opt.disableflags', dis); M.set('opt.enableflags', 0)
+    k = M.arrays['tendon_stiffness'][3]; kp = M.arrays['tendon_stiffnesspoly'][3]; b = M.arrays['tendon_damping'][3]; bp = M.arrays['tendon_dampingpoly'][3]; ls = M.arrays['tendon_lengthspring'][3]
+    ln = D.arrays['ten_length'][3]; tv = D.arrays['ten_velocity'][3]; J = D.arrays['ten_J'][3]
+    ex = llsym.Exec(mod(), fpmode='real', loop_bound=max(nv, npoly, nJ) + 4)
+    st = w.to_state(ex)
+    pre = [ls[2 * i] <= ls[2 * i + 1] for i in range(nt)]
+    st.pc += pre
+    res = ex.run('@mj_springdamper', [w.P(M.o), w.P(D.o)], st)
+    ck.note_results(ex, res)
+    args = [('ptr', (M.o, 0)), ('ptr', (D.o, 0))]
+    dec = lambda mdl: {n_: [str(W.evalnum(mdl, x)) for x in a_] for n_, a_ in (('length', ln), ('velocity', tv), ('J', J), ('stiffness', k), ('stiffnesspoly', kp), ('damping', b), ('dampingpoly', bp), ('lengthspring', ls))}
+    fs_t = []; fd_t = []
+    for i in range(nt):
+        x = z3.If(ln[i] > ls[2 * i + 1], ln[i] - ls[2 * i + 1], z3.If(ln[i] < ls[2 * i], ln[i] - ls[2 * i], z3.RealVal(0)))
+        pf = k[i]; xp = z3.RealVal(1)
+        for t in range(npoly): xp = xp * x; pf = pf + kp[npoly * i + t] * xp
+        fs_t.append(z3.RealVal(0) if flags & 1 else -x * pf)
+        av = z3.If(tv[i] >= 0, tv[i], -tv[i]); pd = b[i]; vp = z3.RealVal(1)
+        for t in range(npoly): vp = vp * av; pd = pd + bp[npoly * i + t] * vp
+        fd_t.append(z3.RealVal(0) if flags & 2 else -tv[i] * pd)
+    for r in res:
+        if r.kind != 'return': continue
+        fs = [ex.load(r.state, w.P(D.arrays['qfrc_spring'][0], 8 * i), FpT('double')) for i in range(nv)]
+        fd = [ex.load(r.state, w.P(D.arrays['qfrc_damper'][0], 8 * i), FpT('double')) for i in range(nv)]
+        outs = [('qfrc_spring%d' % i, D.arrays['qfrc_spring'][0], 8 * i, 'f64', fs[i]) for i in range(nv)] + [('qfrc_damper%d' % i, D.arrays['qfrc_damper'][0], 8 * i, 'f64', fd[i]) for i in range(nv)]
+        rp = W.make_replay(so(), 'mj_springdamper', w, args, outputs=outs, semantics='real')
+        for dof in range(nv):
+            ws = z3.RealVal(0); wd = z3.RealVal(0)
+            for i in range(nt):
+                for j in range(rowadr[i], rowadr[i] + rownnz[i]):
+                    if colind[j] == dof: ws = ws + J[j] * fs_t[i]; wd = wd + J[j] * fd_t[i]
+            ck.prove('tendon spring torque on dof %d = sum_t J[t,dof] * (-x (k + sum poly_i x^(i+1))), x = excess over the lengthspring deadband' % dof, r.state.pc, fs[dof] == ws, site='mj_springdamper:tendon-spring', decode=dec, replay=rp)
+            ck.prove('tendon damper torque on dof %d = sum_t J[t,dof] * (-v (b + sum poly_i |v|^(i+1)))' % dof, r.state.pc, fd[dof] == wd, site='mj_springdamper:tendon-damper', decode=dec, replay=rp)
+    if not flags:
+        for i in range(nt):
+            ck.prove('tendon damper force opposes the tendon velocity for non-negative coefficients', pre + [b[i] >= 0] + [c >= 0 for c in bp[npoly * i:npoly * (i + 1)]], tv[i] * fd_t[i] <= 0, site='mj_springdamper:tendon-dissipative', decode=dec)
+    ck.reach('length above the deadband', pre + [ln[0] > ls[1]])
+    ck.memory_obligations(res, decode=dec)
+    return ck
+
+
+def so_gc():
+    if 'so2' not in _c: _c['so2'] = build.native_lib(['src/engine/engine_passive.c'], SUP + ['src/engine/engine_support.c', 'src/engine/engine_memory.c'], name='passive_gc')
+    return _c['so2']
+
+
+def unit_gravcomp(tier, sparse, chain):
+    """mj_gravcomp on a 3-body model: qfrc_gravcomp[dof] = sum over compensated bodies of -(m gc g) . dp_com/dq_dof, with the force applied at the body's CENTRE OF MASS (xipos)"""
+    ck = Checker('gravcomp_%s_%s' % ('sparse' if sparse else 'dense', 'chain' if chain else 'fork'), tier, timeout_s=120, semantics='real')
+    L = lay(); KD = build.enum_values('mjDSBL_'); KJ = build.enum_values('mjJAC_')
+    w = W.World('real')
+    nb = 3; nv = 2
+    par = [0, 0, 1] if chain else [0, 0, 0]
+    M, _ = W.full_struct(w, L, 'mjModel_', 'MJMODEL_POINTERS', {'nq': nv, 'nv': nv, 'njnt': nv, 'nbody': nb, 'ntree': 1 if chain else 2}, 'm', default_size=0, symbolic=('body_mass', 'body_gravcomp'),
+                         values={'body_parentid': par, 'body_rootid': [0, 1, 1] if chain else [0, 1, 2], 'body_weldid': [0, 1, 2], 'body_dofnum': [0, 1, 1], 'body_dofadr': [-1, 0, 1],
+                                 'dof_bodyid': [1, 2], 'dof_parentid': [-1, 0] if chain else [-1, -1], 'dof_treeid': [0, 0] if chain else [0, 1], 'body_treeid': [-1, 0, 0] if chain else [-1, 0, 1]})
+    D, _ = W.full_struct(w, L, 'mjData_', 'MJDATA_POINTERS', {'nq': nv, 'nv': nv, 'nbody': nb}, 'd', default_size=0, symbolic=('cdof', 'subtree_com', 'xipos', 'xpos', 'qfrc_gravcomp'))
+    ar = w.obj('arena', 8192).zeros(); D.o.put(D.off('arena'), 'ptr', (ar, 0)); D.set('narena', 8192)
+    M.set('opt.disableflags', 0); M.set('opt.enableflags', 0); M.set('flg_gravcomp', 1); M.set('opt.jacobian', KJ['mjJAC_SPARSE'] if sparse else KJ['mjJAC_DENSE'])
+    g = [M.sym('opt.gravity[%d]' % k, 'g%d' % k) for k in range(3)]
+    mass = M.arrays['body_mass'][3]; gc = M.arrays['body_gravcomp'][3]
+    cdof = D.arrays['cdof'][3]; com = D.arrays['subtree_com'][3]; xi = D.arrays['xipos'][3]; q0 = D.arrays['qfrc_gravcomp'][3]
+    def alloc(ex, st, args, ins):
+        size = ex.as_int(args[1]); return st.alloc(size, ('stack', len(st.objs)))
+    noop = lambda ex, st, args, ins: None
+    ex = llsym.Exec(mod(), fpmode='real', loop_bound=12, stubs={'mj_stackAllocInfo': alloc, 'mj_markStack': noop, 'mj_freeStack': noop})
+    st = w.to_state(ex)
+    pre = [g[0] * g[0] + g[1] * g[1] + g[2] * g[2] > 0]
+    st.pc += pre
+    res = ex.run('@mj_gravcomp', [w.P(M.o), w.P(D.o)], st)
+    ck.note_results(ex, res)
+    args = [('ptr', (M.o, 0)), ('ptr', (D.o, 0))]
+    dec = lambda mdl: {'gravity': [str(W.evalnum(mdl, x)) for x in g], 'mass': [str(W.evalnum(mdl, x)) for x in mass], 'gravcomp': [str(W.evalnum(mdl, x)) for x in gc],
+                       'xipos': [str(W.evalnum(mdl, x)) for x in xi], 'xpos': [str(W.evalnum(mdl, x)) for x in D.arrays['xpos'][3]]}
+    def cr(a, b): return [a[1] * b[2] - a[2] * b[1], a[2] * b[0] - a[0] * b[2], a[0] * b[1] - a[1] * b[0]]
+    want = list(q0)
+    for b in (1, 2):
+        root = ([0, 1, 1] if chain else [0, 1, 2])[b]
+        off = [xi[3 * b + k] - com[3 * root + k] for k in range(3)]
+        f = [-(mass[b] * gc[b]) * g[k] for k in range(3)]
+        dofs = ([0] if b == 1 else ([0, 1] if chain else [1]))
+        for dof in dofs:
+            c = cdof[6 * dof:6 * dof + 6]; t = cr(c[0:3], off)
+            jp = [c[3 + k] + t[k] for k in range(3)]
+            want[dof] = want[dof] + z3.If(gc[b] != 0, jp[0] * f[0] + jp[1] * f[1] + jp[2] * f[2], z3.RealVal(0))
+    for r in res:
+        if r.kind != 'return': continue
+        out = [ex.load(r.state, w.P(D.arrays['qfrc_gravcomp'][0], 8 * i), FpT('double')) for i in range(nv)]
+        rp = W.make_replay(so_gc(), 'mj_gravcomp', w, args, restype='i32', outputs=[('qfrc_gravcomp%d' % i, D.arrays['qfrc_gravcomp'][0], 8 * i, 'f64', out[i]) for i in range(nv)], semantics='real')
+        for i in range(nv):
+            ck.prove('qfrc_gravcomp[%d] += sum_b J_com(b)^T (-m_b gc_b g), Jacobian taken at the centre of mass xipos of each compensated body' % i, r.state.pc, out[i] == want[i], site='mj_gravcomp:law', decode=dec, replay=rp)
+        ck.prove('mj_gravcomp returns whether any body is compensated', r.state.pc, (r.value != 0) == z3.Or(gc[1] != 0, gc[2] != 0), site='mj_gravcomp:return', decode=dec, replay=rp)
+    ck.reach('both bodies compensated', pre + [gc[1] != 0, gc[2] != 0])
+    ck.memory_obligations(res, decode=dec)
+    return ck
+
+
 def units(tier):
     u = []
     for nv in ([1, 2] if tier == 'quick' else [1, 2, 3]):
         for f in (0, 1, 2, 3): u.append(('springdamper_nv%d_f%d' % (nv, f), 'unit_spring', {'nv': nv, 'flags': f}))
+    for sp in (0, 1):
+        for ch in (1, 0): u.append(('gravcomp_%s_%s' % ('sparse' if sp else 'dense', 'chain' if ch else 'fork'), 'unit_gravcomp', {'sparse': sp, 'chain': ch}))
+    for nt in ([1] if tier == 'quick' else [1, 2]):
+        for f in ((0, 3) if tier == 'quick' else (0, 1, 2, 3)): u.append(('tendon_nt%d_f%d' % (nt, f), 'unit_tendon', {'nt': nt, 'flags': f}))
     return u
